@@ -108,7 +108,7 @@ class EnvironmentsTemplateV2(Source[Sequence[Environment]]):
         if isinstance(item, list):
             pieces = [ self._make(i) for i in item]
 
-            if hasattr(pieces[0][0],'read') and hasattr(pieces[1][0],'filter'):
+            if len(pieces) > 1 and hasattr(pieces[0][0],'read') and hasattr(pieces[1][0],'filter'):
                 result = [ Pipes.join(s,*f) for s in pieces[0] for f in product(*pieces[1:])]
             else:
                 result = sum(pieces,[])
